@@ -4,7 +4,7 @@ from fractions import Fraction
 
 from ..extract import AnalysisError
 from ..facts import walk, strip, callee, calls_to
-from ..symx import SymEval, Poly, Rat, Unsupported, app, var, num, single_atom, atom_fn, atom_args, vkey
+from ..symx import SymEval, Poly, Rat, Unsupported, app, var, num, single_atom, atom_fn, atom_args, vkey, contains_atom
 from ..trace import Tracer
 
 LEVEL = "other"
@@ -15,7 +15,7 @@ ASREF = "std::option::Option::<T>::as_ref"
 
 
 def M(field, some_fn, none_val):
-    s = app(ASREF, var(field))
+    s = var(field)      # (borrowed views of the option - as_ref() - are the same optional value)
     p = app("payload0", s)
     return app("match", s, ((repr(("Some", "_")), some_fn(p)), (repr("None"), none_val)))
 
@@ -40,7 +40,9 @@ def run(ck, F, tier):
 
     # ---- B1 ---------------------------------------------------------------------------------------
     sb = F.body(W + "simulate")
-    tr = Tracer(F, r"decoder::LdpcDecoder::decode|simulation::channel::Channel::add_noise", mode="int")
+    # private helpers of Worker that only stage the chain (e.g. "transmitted bits", "decoder LLRs") are expanded
+    tr = Tracer(F, r"decoder::LdpcDecoder::decode|simulation::channel::Channel::add_noise", mode="int",
+                inline=lambda p: F.private_helper(p, W, keep=re.escape(W) + r"(random_message|gf2_array|count_bit_errors)"))
     env = {}
     for p, nm in zip(sb.params, ("self", "rng")):
         tr.bind(p, var(nm), env)
@@ -138,7 +140,8 @@ def run(ck, F, tier):
                     DB = Poly.atom(at)
             if DB is not None:
                 base, ex = atom_args(single_atom(DB))
-                ex_ok = base == num(10) and isinstance(ex, Poly) and len(ex.t) == 1 and list(ex.t.values())[0] == Fraction(1, 10) and "ebn0_db" in repr(ex)
+                ex_ok = base == num(10) and isinstance(ex, Poly) and len(ex.t) == 1 and list(ex.t.values())[0] == Fraction(1, 10) and \
+                    ("ebn0_db" in repr(ex) or contains_atom(vkey(ex), lambda a_: a_ == ("v", "self.ebn0s_db")))
                 want = Rat(num(Fraction(1, 2)), var("self.rate") * var("simulation::modulation::Modulation::BITS_PER_SYMBOL") * DB)
                 ok = inner == want and ex_ok
                 why = "noise_sigma = sqrt(%r) ; required sqrt(0.5 / (rate * BITS_PER_SYMBOL * 10^(0.1*EbN0_dB)))" % (inner,)
